@@ -39,7 +39,59 @@ def perm_cases(g, seed, maxsize, per_type_cap):
             for p in perms:
                 cases.append({'type': t, 'arr': arr[0], 'perm': list(p), 'ops': [['a', s] for s in p] + [['f', 0]]})
             n += 1
+        # orders that force a re-arrangement: a symbol that opens a branch of a choice is added last, after children of other parts
+        # of the content model are in place (the add-time re-homing of already attached children has to succeed and lose nothing)
+        openers = branch_openers(tree)
+        if not openers:
+            continue
+        ws = rx.words(r, alpha, maxsize + 1, 400)
+        ms = {}
+        for w in ws:
+            if 3 <= len(w) <= maxsize + 1 and any(x in openers for x in w):
+                ms.setdefault(tuple(sorted(w)), w)
+        keys = sorted(ms)
+        rng.shuffle(keys)
+        n = 0
+        for k in keys:
+            if n >= per_type_cap * 2:
+                break
+            arr = rx.arrangements(r, list(k), cap=2)
+            if len(arr) != 1:
+                continue
+            n += 1
+            for o in sorted(set(x for x in k if x in openers)):
+                rest = list(k)
+                rest.remove(o)
+                perms = sorted(set(itertools.permutations(rest)))
+                if len(perms) > 8:
+                    perms = rng.sample(perms, 8)
+                for p in perms:
+                    p = list(p) + [o]
+                    cases.append({'type': t, 'arr': arr[0], 'perm': p, 'ops': [['a', s] for s in p] + [['f', 0]]})
     return cases
+
+
+def branch_openers(tree):
+    out = set()
+
+    def first_leaf(t):
+        if t[0] == 'E':
+            return t[1]
+        for k in (t[4] if t[0] == 'G' else t[3]):
+            x = first_leaf(k)
+            if x:
+                return x
+
+    def walk(t):
+        if t[0] == 'E':
+            return
+        kids = t[4] if t[0] == 'G' else t[3]
+        if t[0] == 'C':
+            out.update(x for x in (first_leaf(k) for k in kids) if x)
+        for k in kids:
+            walk(k)
+    walk(tree)
+    return out
 
 
 def verdict_a(case, res):
